@@ -499,7 +499,7 @@ class _Engine:
         _ = prop
         quick = tier == "quick"
         return {
-            "n_runs": 4000 if quick else 100000,
+            "n_runs": 5000 if quick else 100000,
             "chunk": 6,
             "wall_budget_s": 110 if quick else 1500,
             "level": "exploration",
